@@ -818,6 +818,42 @@ def input_aliasing_checks():
                                 call=1, violated=f'points changed: first {first}, then {second}, expected {[xs, ys]} forever'))
         except Exception as e:
             bad.append(dict(script=dict(text=f'PredefinedGenerator({kind} inputs)'), clause='predefined', call=0, violated=f'{type(e).__name__}: {e}'))
+    # generator objects used twice: a mesh that was the leading argument of another mesh is still the mesh it was
+    try:
+        g1, g2, g3 = (G.Generator1D(n_, 0.0, 1.0, method='equally-spaced') for n_ in (2, 3, 2))
+        xy = g1 ^ g2
+        before = flat(xy.get_examples())
+        xyz = xy ^ g3
+        after = flat(xy.get_examples())
+        if len(after) != 2 or after != before or xy.size != 6 or len(flat(xyz.get_examples())) != 3 or xyz.size != 12:
+            bad.append(dict(script=dict(text='xy = g1 ^ g2; xyz = xy ^ g3; xy.get_examples()'), clause='mesh', call=1,
+                            violated=f'a mesh reused after being nested changed: {len(after)} coordinates of {len(after[0])} rows, size {xy.size}'))
+        # a random (stateful) filter is asked once per draw: every coordinate is cut with the same mask, rows stay paired
+        class Pair(G.BaseGenerator):
+            def __init__(self):
+                super().__init__()
+                self.size = 40
+
+            def get_examples(self):
+                x = torch.arange(40, dtype=torch.float64)
+                return x, x + 100.0, x + 200.0
+        torch.manual_seed(4)
+        fg = G.FilterGenerator(Pair(), lambda xs: torch.rand(len(xs[0])) < 0.5)
+        for call in range(3):
+            out = flat(fg.get_examples())
+            if len({len(c) for c in out}) != 1 or any(b != a + 100.0 or c != a + 200.0 for a, b, c in zip(*out)):
+                bad.append(dict(script=dict(text='FilterGenerator(3-coordinate generator, random mask)'), clause='filter', call=call,
+                                violated=f'coordinates cut with different masks: lengths {[len(c) for c in out]}'))
+                break
+        # an explicit size of 0 is a size (not "no size given")
+        pool = G.Generator1D(8, 0.0, 1.0, method='equally-spaced')
+        rs = G.ResampleGenerator(pool, size=0)
+        out = flat(rs.get_examples())
+        if rs.size != 0 or any(len(c) != 0 for c in out):
+            bad.append(dict(script=dict(text='ResampleGenerator(pool of 8, size=0)'), clause='resample', call=0,
+                            violated=f'size {rs.size}, {[len(c) for c in out]} rows returned, expected 0'))
+    except Exception as e:
+        bad.append(dict(script=dict(text='reused / stateful / empty combinators'), clause='reuse', call=0, violated=f'{type(e).__name__}: {e}'))
     return bad
 
 
